@@ -3,8 +3,9 @@
 package exif2
 
 import (
+	"fmt"
+	"reflect"
 	"sync"
-	"time"
 )
 
 // Verification hooks (build tag "verif" only; not compiled into the shipped package).
@@ -59,6 +60,8 @@ func VerifSetResidue(fill func(v VerifBufferView)) {
 }
 
 // VerifPristine restores process-start state: zeroed buffers and an empty time-zone cache.
+// The cache is emptied through reflection so that this file does not depend on the cache's key
+// type.
 func VerifPristine() {
 	verifMu.Lock()
 	verifFill = nil
@@ -67,8 +70,9 @@ func VerifPristine() {
 	}
 	verifMu.Unlock()
 	mutexTimeZones.Lock()
-	for k := range cacheTimeZone {
-		delete(cacheTimeZone, k)
+	m := reflect.ValueOf(cacheTimeZone)
+	for _, k := range m.MapKeys() {
+		m.SetMapIndex(k, reflect.Value{})
 	}
 	mutexTimeZones.Unlock()
 }
@@ -87,20 +91,14 @@ func VerifPoolObjects() int {
 	return len(verifObjects)
 }
 
-// VerifZoneCache returns a snapshot of the time-zone cache: offset -> zone name.
-func VerifZoneCache() map[int32]string {
-	out := map[int32]string{}
+// VerifZoneCache returns a snapshot of the time-zone cache: key (as text) -> zone name.
+func VerifZoneCache() map[string]string {
+	out := map[string]string{}
 	mutexTimeZones.RLock()
-	for k, v := range cacheTimeZone {
-		out[k] = v.String()
+	it := reflect.ValueOf(cacheTimeZone).MapRange()
+	for it.Next() {
+		out[fmt.Sprint(it.Key().Interface())] = fmt.Sprint(it.Value().Interface())
 	}
 	mutexTimeZones.RUnlock()
 	return out
-}
-
-// VerifSeedZone pre-loads the time-zone cache (history residue).
-func VerifSeedZone(offset int32, name string) {
-	mutexTimeZones.Lock()
-	cacheTimeZone[offset] = time.FixedZone(name, int(offset))
-	mutexTimeZones.Unlock()
 }
